@@ -5,6 +5,7 @@ import (
 	"flag"
 	"fmt"
 	"os"
+	"verifharness/historychk"
 
 	"github.com/csgura/fp"
 	"github.com/csgura/fp/iterator"
@@ -474,6 +475,7 @@ func main() {
 		sink.Case(op.String(), func() string { return runCase(op) })
 	}
 	nd := direct(r, sink, *n/10+10)
+	nd += historychk.Run(sink, "C17")
 	sink.Close()
 	fmt.Printf("{\"cases\": %d, \"direct_checks\": %d, \"direct_failures\": %d, \"histogram\": {", sink.N, nd, sink.DirectFailures)
 	first := true
